@@ -20,8 +20,9 @@ K_HONEST = 1e5        # fixed multiple of the reported estimate (95 % bound with
 KAPPA = 1e3           # rounding floor, multiples of eps * local scale at the reported final step
 # (b) calibration of the estimate, pooled over the library-chosen step configurations with at
 # least two estimates and n <= 6.  Unchanged tree (2 500-case samples): coverage 0.965-0.985,
-# median 0.01-0.17, q90 0.1-0.7.
-POOLED = ('central', 'forward', 'backward', 'multicomplex')
+# median 0.06-0.17, q90 0.5-0.7.  (multicomplex is not pooled: with several steps of ~1e-15 its
+# errors are rounding noise and coverage varied between 0.90 and 0.99 from sample to sample.)
+POOLED = ('central', 'forward', 'backward')
 COVERAGE_MIN = 0.90
 Q50_MAX = 0.4
 Q90_MAX = 2.0
